@@ -191,7 +191,72 @@ class Normalizer(object):
             for v in e.values:
                 out.extend(self.disjuncts(v))
             return out
+        # x < c + max(a, b)  is  x < c + a  or  x < c + b  (the larger side
+        # of a comparison is as large as its largest alternative); with the
+        # inlining of single-definition locals the call may sit behind a
+        # name
+        ex = self._expand_extremum(e)
+        if ex is not None:
+            out = []
+            for v in ex:
+                out.extend(self.disjuncts(v))
+            return out
         return [self.cmp(e)]
+
+    def _expand_extremum(self, e):
+        if not (isinstance(e, ast.Compare) and len(e.ops) == 1):
+            return None
+        from psa.rules import common as C
+        full = e
+        if self.func is not None and self.inline:
+            # only the local that holds the max(...) itself is replaced:
+            # the naming table is keyed by the text of the other operands
+            from psa import pathval
+            env = {nm: ds[0] for nm, ds in self._defs.items()
+                   if len(ds) == 1 and isinstance(ds[0], ast.Call)
+                   and isinstance(ds[0].func, ast.Name)
+                   and ds[0].func.id in ('max', 'min')}
+            if env:
+                full = pathval.subst(e, env)
+        op = e.ops[0]
+        left, right = full.left, full.comparators[0]
+        if isinstance(op, (ast.Lt, ast.LtE)):
+            big, fn = right, 'max'
+        elif isinstance(op, (ast.Gt, ast.GtE)):
+            big, fn = left, 'max'
+        else:
+            return None
+        calls = [n for n in ast.walk(big) if isinstance(n, ast.Call)
+                 and isinstance(n.func, ast.Name) and n.func.id == fn
+                 and len(n.args) >= 2 and not n.keywords]
+        if len(calls) != 1:
+            return None
+        call = calls[0]
+        # only in a position where the side grows with the call's value:
+        # the call itself or a summand of additions
+        cur, ok = big, False
+        stack = [big]
+        while stack:
+            x = stack.pop()
+            if x is call:
+                ok = True
+                break
+            if isinstance(x, ast.BinOp) and isinstance(x.op, ast.Add):
+                stack.extend([x.left, x.right])
+        if not ok:
+            return None
+        outs = []
+        for a in call.args:
+            import copy as _c
+            new = _c.deepcopy(full)
+
+            class T(ast.NodeTransformer):
+                def visit_Call(self_, node):
+                    if ast.dump(node) == ast.dump(call):
+                        return _c.deepcopy(a)
+                    return self_.generic_visit(node)
+            outs.append(ast.fix_missing_locations(T().visit(new)))
+        return outs
 
 
 def column_naming(extra=None):
